@@ -62,6 +62,7 @@ Section Inv.
   | SWrite w p c : step w (write_file w p c)
   | SRemove w p : step w (remove_file w p)
   | SChmod w p x : step w (set_exec w p x)
+  | SMove w p q : step w (move_file w p q)
   (* main thread: state files and directories *)
   | SWriteTable w tbl :
       (forall p st, alookup bytes_eqb tbl p = Some st -> state_ok w st) ->
